@@ -1,7 +1,7 @@
 CHECK = {
     "suites": [suite("conversation", "c16", 3000, 30000, stdin=True, timeout={"quick": 600, "thorough": 2400})],
     "gen": [{"pkg": "extract_c16", "out": "lean/ClusterVerif/Gen/C16.lean"}],
-    "lean_sources": ["ClusterVerif/Model/C16Source.lean", "ClusterVerif/Model/C16Dec.lean", "ClusterVerif/Gen/C16.lean", "ClusterVerif/Model/C16Http.lean", "ClusterVerif/Model/C16.lean", "ClusterVerif/Model/C16Aux.lean", "ClusterVerif/Model/C16Ctx.lean", "ClusterVerif/Model/C16Req.lean", "ClusterVerif/Spec/C16.lean", "ClusterVerif/Lemmas/C16Http.lean", "ClusterVerif/Lemmas/C16.lean", "ClusterVerif/Lemmas/C16Req.lean"],
+    "lean_sources": ["ClusterVerif/Model/C16Source.lean", "ClusterVerif/Model/C16Dec.lean", "ClusterVerif/Gen/C16.lean", "ClusterVerif/Model/C16Http.lean", "ClusterVerif/Model/C16.lean", "ClusterVerif/Model/C16Aux.lean", "ClusterVerif/Model/C16Ctx.lean", "ClusterVerif/Model/C16Req.lean", "ClusterVerif/Model/C16Seq.lean", "ClusterVerif/Spec/C16.lean", "ClusterVerif/Lemmas/C16Http.lean", "ClusterVerif/Lemmas/C16.lean", "ClusterVerif/Lemmas/C16Req.lean", "ClusterVerif/Lemmas/C16Seq.lean"],
     "rule": "cases = (op pin|unpin|PinLsCid, MaxDepth in {-2,-1,0,1,2,7}, Mode, update source none|other|same, 0-13 origins, UnpinDisable, "
             "prior daemon state u|d|r|i of every CID, one daemon behaviour per sequential request: a point of HTTP status (200, other 2xx, 3xx, 4xx, 5xx) x content type x "
             "13 body shapes x 6 transports (complete, nothing, cut, cut after the work was done, stalled before / inside the body) or one of the 21 named wire forms incl. the pin/add stream forms; "
@@ -12,6 +12,7 @@ CHECK = {
                      "harness/extract_c16: the symbolic path enumeration that turns doPostCtx/checkResponse/postCtx into decision tables (unknown constructs are emitted as `unknown` and fail closed)",
                      "harness/extract_c16/ctx.go: the walk that lists, per call of a Connector method taking a context, the WithTimeout / WithCancel / watchdog bounds in force (scoping of := followed; anything else touching ctx is emitted as `unknown` and counts as no bound)",
                      "harness/extract_c16/req.go: the reading of a request path (literal | fmt.Sprintf with %s verbs | literal + e) into endpoint and ordered query, the resolution of the expressions that fill it through single-assignment locals and the unique call site of an unexported helper, and the reading of the switch arms of pinArgs / ToPinMode / PinMode.String / IsPinned / IPFSPinStatusFromString (any other shape is emitted as `unknown` and yields no request / no table value)",
+                     "harness/extract_c16/seq.go: the classification of the top-level statements of Pin / Unpin into the vocabulary Dec.SeqStmt (tracing, logging, stats, context plumbing and request-path locals skipped by their text; every other statement or shape is emitted as `unknown` and the interpreter then yields no output)",
                      "go-ipfs' defaults for options left out of a request, as written in ReqM.daemonReads and in the fake daemon: pin/update unpin=true, pin/add recursive=true progress=false, pin/rm recursive=true",
                      "net/http client and server of the Go standard library"],
     "assumptions": ["an IPFS error object in reply to pin/ls means 'not pinned' (the connector does not read the text)",
@@ -38,10 +39,13 @@ META = {
             "gen_req_upd (pin/update carries source, target in this order and an explicit unpin=false), gen_req_add (recursive=false exactly for depth 0, max-depth exactly for positive depths, progress=true), gen_req_ls (type=direct exactly for depth 0), gen_req_rm, "
             "gen_isPinned / gen_isPinned_asked (IsPinned for every status x depth is the model's `asked`), gen_fromString_types (go-ipfs' Type texts incl. `indirect through <cid>`), rebuildTrace_run / runReq_eq_run / allowedReq_holds (for all inputs), "
             "and the refutation omitted_unpin_reads_true / omitted_unpin_loses_source (seeded change C16g as a table: the interpreted model predicts the loss of the source's pin). "
+            "The STATEMENT ORDER of Pin and Unpin is regenerated too (Gen.pinSeq, Gen.unpinSeq: look-up, test of its error, short-cut test with its depth, deferred metric update, origins loop with its cap, the update branch with the look-up of the source and its IsPinned(-1) test, progress call, returns; for Unpin the disabled test, the pin/rm request and the tolerated error texts) and interpreted (Seq.interp; an unknown statement yields no output): "
+            "gen_pinSeq_is_pin / gen_unpinSeq_is_unpin (today's bodies, run statement by statement, are the transcribed model, all inputs), allowedSeq_holds (what the driver also compares with satisfies every clause), gen_metric_iff_mutation (updateInformerMetric is armed exactly when a pin/add, pin/update or pin/rm was sent; model-level, not observed), "
+            "and refutations with concrete inputs for a probe error answered with nil, a dropped test of the probe's error, a short-cut tested against another depth and another tolerated error text in Unpin. "
             "Every output the model admits satisfies every clause of the property for all pins, prior tables and scripts (allowed_holds, full since the repair of K28). "
             "Tied to today's code by running the real connector against a scripted fake HTTP daemon on loopback and comparing result class, request trace and "
             "final pin table with the model, and by evaluating the Lean property checker on the real outputs.",
     "note": "Trusted: Lean kernel, the hand-written model/spec, the fake daemon and its notion of an honest answer, Go net/http. Timing cases use a 60 ms PinTimeout "
             "and are repeated until two runs agree.",
-    "technique": "semantic translator (go/ast symbolic path enumeration of the HTTP helpers into decision tables interpreted by the model; PinLsCid call sites; context-governance table of every daemon call interpreted by the model; request-construction table of every daemon request and the switch tables of pinArgs / api/types.go interpreted by the model) + regenerated source text of the anchored functions checked against the transcribed snapshot (rfl) + Lean 4 theorems over an executable conversation model + differential correspondence with the real ipfshttp.Connector",
+    "technique": "semantic translator (go/ast symbolic path enumeration of the HTTP helpers into decision tables interpreted by the model; PinLsCid call sites; context-governance table of every daemon call interpreted by the model; request-construction table of every daemon request and the switch tables of pinArgs / api/types.go interpreted by the model; statement order of Pin / Unpin as a regenerated sequence interpreted by the model) + regenerated source text of the anchored functions checked against the transcribed snapshot (rfl) + Lean 4 theorems over an executable conversation model + differential correspondence with the real ipfshttp.Connector",
 }
